@@ -455,8 +455,21 @@ class History:
         except Exception as e:
             exc = e
         st = self._st(idx)
+        # history(feature) is the part of history() that concerns the feature (carvers only)
+        hist_ok = True
+        if feature is not None and exc is None and isinstance(getattr(o, '_history', None), dict) and hasattr(o, 'history'):
+            try:
+                keys = ('combination', 'viability', 'grouping_nan', 'cramerv', 'tschuprowt', 'kruskal')
+
+                def rows_of(fr, only=None):
+                    recs = fr.reset_index(drop=True).to_dict('records') if fr is not None and len(fr) else []
+                    return json.dumps([{k: r[k] for k in keys if k in r} for r in recs if only is None or r.get('feature') == only],
+                                      default=str, sort_keys=True)
+                hist_ok = rows_of(o.history(feature)) == rows_of(o.history(), only=feature)
+            except Exception:
+                hist_ok = False
         self.events.append({'ev': 'summary', 'obj': idx, 'outcome': outcome_code(exc), 'exc': exc_text(exc), 'st': st,
-                            'f_name': feature, 'rows_raw': rows})
+                            'f_name': feature, 'rows_raw': rows, 'history_of_feature_ok': bool(hist_ok)})
 
     def badcall(self, idx, kind, fn):
         """fn() performs the malformed call on self.objs[idx]."""
@@ -679,6 +692,7 @@ class Encoder:
                     rows.append([fi, self.out(fn, lab), cont])
                 e['rows'] = rows
                 e['strvals'] = [sorted(self.quali_strs.get(fn, set())) for fn in names]
+                e['history_of_feature_ok'] = bool(ev.get('history_of_feature_ok', True))
             elif ev['ev'] == 'badcall':
                 e['kind'] = ev['kind']
                 e['json_unchanged'] = bool(ev['json_unchanged'])
